@@ -203,7 +203,7 @@ def group_assignment(tlist):
 
 def group_comparison(tlist):
     sqlcls = (sql.Parenthesis, sql.Function, sql.Identifier,
-              sql.Operation, sql.TypedLiteral)
+              sql.Operation, sql.TypedLiteral, sql.Case)
     ttypes = T_NUMERICAL + T_STRING + T_NAME
 
     def match(token):
@@ -212,7 +212,8 @@ def group_comparison(tlist):
     def valid(token):
         if imt(token, t=ttypes, i=sqlcls):
             return True
-        elif token and token.is_keyword and token.normalized == 'NULL':
+        elif token and token.is_keyword \
+                and token.normalized in ('NULL', 'TRUE', 'FALSE'):
             return True
         else:
             return False
